@@ -88,7 +88,10 @@ let () = run_lines (fun toks ->
      | "exp_mod_n" -> h (Model.exp_mod_nZ a.(0) thr k a.(1) a.(2) a.(3))
      | "cast" -> let ((((u8, u16), (u32, u64)), ((s8, s16), (s32, s64))), b) = Model.castZ k a.(0) in
          let w x = h (Model.wrap_u (zs "64") x) in
-         String.concat " " [h u8; h u16; h u32; h u64; w s8; w s16; w s32; w s64; h b]
+         (* (double)rint: the integer the repaired cast hands to the conversion; "big" when a double cannot hold it exactly *)
+         let f = za_of_z (Model.scast_fltZ k a.(0)) in
+         let ft = if ZA.lt (ZA.abs f) (ZA.shift_left ZA.one 53) then ZA.format "%x" (ZA.logand f (ZA.pred (ZA.shift_left ZA.one 64))) else "big" in
+         String.concat " " [h u8; h u16; h u32; h u64; w s8; w s16; w s32; w s64; h b; ft]
      | "maxconst" -> let (c, (e, f)) = Model.maxconstZ a.(0) k in String.concat " " [h c; h e; h f]
      | "mpz_to_ruint_into" -> p2 (Model.mpz_to_ruint_intoZ k a.(0) a.(1))
      | "mpz_to_rint_into" -> h (Model.mpz_to_rint_intoZ k a.(0) a.(1))
